@@ -38,6 +38,12 @@ CORPORA = {
                  family="flow", trace="FlowTrace.tla", tracecfg="FlowTrace.cfg"),
     "limits": dict(gen="MCLimits.tla", cfg={"quick": "limits_quick.cfg", "thorough": "limits_thorough.cfg"},
                    family="limits", trace="LimitsTrace.tla", tracecfg="LimitsTrace.cfg", harness_workers=1),
+    "schema": dict(gen="MCStream.tla", cfg={"quick": "stream_matrix_quick.cfg", "thorough": "stream_matrix_thorough.cfg"},
+                   family="stream", trace="StreamTrace.tla", tracecfg="StreamTrace.cfg",
+                   variants=["noresolver", "reparsed", "dynext", "global"]),
+    "schema_errors": dict(gen="MCStream.tla", cfg={"quick": "stream_errors_quick.cfg", "thorough": "stream_errors_thorough.cfg"},
+                   family="stream", trace="StreamTrace.tla", tracecfg="StreamTrace.cfg",
+                   variants=["noresolver", "reparsed", "dynext", "global"]),
     "stream_headers": dict(gen="MCStream.tla", cfg={"quick": "stream_headers_quick.cfg", "thorough": "stream_headers_thorough.cfg"},
                            family="stream", trace="StreamTrace.tla", tracecfg="StreamTrace.cfg"),
 }
@@ -57,6 +63,7 @@ PROPS = {
                 design=[("MCFraming.tla", "framing_%s_fixed.cfg" % p) for p in ("R1", "R2", "R3", "R4", "R5", "R5e")]),
     "C09": dict(corpora=["stream_faults"], prefix="C09."),
     "C10": dict(corpora=["limits"], prefix="C10."),
+    "C20": dict(corpora=["schema"], corpora_thorough=["schema", "schema_errors"], prefix="C20."),
     "C11": dict(corpora=["stream_hostile", "stream_faults", "stream_errors", "stream_reject"], prefix="C11."),
     "C12": dict(corpora=["timeout"], prefix="C12."),
     "C13": dict(corpora=["stream_matrix", "stream_reject"], prefix="C13."),
@@ -124,12 +131,43 @@ def run_corpus(name, tier, seed, work, binary):
     for i, s in enumerate(scns):
         s["sid"] = "%s-%d" % (name, i + 1)
         s["fam"] = c["family"]
+        if c.get("variants"):
+            s["seed"] = seed * 1000003 + i + 1     # the same concretisation in the reference run and in every variant
     scn_file = os.path.join(work, name + ".scn.ndjson")
     trace_file = os.path.join(work, name + ".trace.ndjson")
     vlib.write_ndjson(scn_file, scns)
     log("[%s] E3: replaying %d scenarios" % (name, len(scns)))
     t1 = time.time()
-    vlib.run_harness(binary, c["family"], scn_file, trace_file, seed, workers=c.get("harness_workers"))
+    if c.get("variants"):
+        # C20: the same scenarios against Transcoders whose schema was supplied in different ways; every
+        # variant observation is joined (by sid) with the reference run's observation, TLC compares them
+        ref_file = os.path.join(work, name + ".ref.ndjson")
+        vlib.run_harness(binary, c["family"], scn_file, ref_file, seed)
+        ref = {}
+        with open(ref_file) as f:
+            for line in f:
+                o = json.loads(line)
+                ref[o["sid"]] = o
+        nv = len(c["variants"])
+        with open(trace_file, "w") as out:
+            for k, variant in enumerate(c["variants"]):
+                sub = [sc for i, sc in enumerate(scns) if i % nv == k]
+                sub_file = os.path.join(work, "%s.%s.scn.ndjson" % (name, variant))
+                var_file = os.path.join(work, "%s.%s.ndjson" % (name, variant))
+                vlib.write_ndjson(sub_file, sub)
+                vlib.run_harness(binary, c["family"], sub_file, var_file, seed, env={"VERIF_SCHEMA": variant})
+                with open(var_file) as f:
+                    for line in f:
+                        o = json.loads(line)
+                        r = ref.get(o["sid"])
+                        if r is None or r.get("ev") != "rpc" or o.get("ev") != "rpc":
+                            continue
+                        # the per-scenario seed is derived from the line index: re-run the reference with the variant's seed
+                        o["ref"] = dict(has=True, kind="schema", disp=r["disp"], cl=r["cl"], ret=r["ret"])
+                        o["note"] = "schema=" + variant
+                        out.write(json.dumps(o, separators=(",", ":")) + "\n")
+    else:
+        vlib.run_harness(binary, c["family"], scn_file, trace_file, seed, workers=c.get("harness_workers"))
     log("[%s] E3 done in %.1fs; E4: trace validation" % (name, time.time() - t1))
     ntrace = sum(1 for _ in open(trace_file))
     nsh = c.get("shards", 1)
@@ -193,7 +231,7 @@ def check(pid, tier, seed, work, t0):
         states += g["distinct"]
         transitions += g["generated"]
         design[cfg] = dict(states=g["distinct"], transitions=g["generated"])
-    for name in prop["corpora"]:
+    for name in (prop.get("corpora_thorough") if tier == "thorough" and prop.get("corpora_thorough") else prop["corpora"]):
         r = run_corpus(name, tier, seed, work, binary)
         for sc in r["scns"]:
             by_sid[(name, sc["sid"])] = sc
